@@ -29,3 +29,68 @@ package j5reflect
 //@   requires forall i int :: 0 <= i && i < len(prop.protoPath) ==> prop.protoPath[i] != nil
 //@   loop 0 invariant len(walkPath) >= 1 && walkMessage != nil && msgValid(walkMessage)
 //@   loop 0 invariant forall i int :: 0 <= i && i < len(walkPath) ==> walkPath[i] != nil
+
+// ---- element factories: the unchecked assertions `.(ObjectField)` / `.(OneofField)` on new array and
+// map elements rely on the factory that was paired with the container at construction. That pairing is
+// made explicit here: a message field factory builds the field type that matches its own type, the
+// factory chosen for a schema matches the schema, and containers keep the factory they were given.
+
+//@ func (messageFieldFactory).buildField
+//@   ensures typeis(recv, *objectFieldFactory) ==> typeis(result, *objectField) && as(*objectField, result) != nil
+//@   ensures typeis(recv, *oneofFieldFactory) ==> typeis(result, *oneofField) && as(*oneofField, result) != nil
+//@ func (*objectFieldFactory).buildField
+//@   ensures typeis(result, *objectField) && as(*objectField, result) != nil
+//@ func (*oneofFieldFactory).buildField
+//@   ensures typeis(result, *oneofField) && as(*oneofField, result) != nil
+
+// Only object, oneof and any item schemas have message field factories (the schema builder never
+// nests an array or map directly inside an array or map: protobuf cannot express it).
+//@ func newMessageFieldFactory
+//@   requires typeis(schema, *j5schema.ObjectField) || typeis(schema, *j5schema.OneofField) || typeis(schema, *j5schema.AnyField)
+//@   ensures result1 == nil && typeis(schema, *j5schema.ObjectField) ==> typeis(result0, *objectFieldFactory)
+//@   ensures result1 == nil && typeis(schema, *j5schema.OneofField) ==> typeis(result0, *oneofFieldFactory)
+
+//@ spec func mapElemObj(m MutableMapField) bool = typeis(m, *mutableMapField) && as(*mutableMapField, m) != nil && typeis(as(*mutableMapField, m).factory, *objectFieldFactory)
+//@ spec func mapElemOneof(m MutableMapField) bool = typeis(m, *mutableMapField) && as(*mutableMapField, m) != nil && typeis(as(*mutableMapField, m).factory, *oneofFieldFactory)
+//@ type *mapOfObjectField invariant f: f != nil && mapElemObj(f.MutableMapField)
+//@ type *mapOfOneofField invariant f: f != nil && mapElemOneof(f.MutableMapField)
+//@ type *arrayOfObjectField invariant f: f != nil && typeis(f.factory, *objectFieldFactory)
+//@ type *arrayOfOneofField invariant f: f != nil && typeis(f.factory, *oneofFieldFactory)
+
+// the constructors establish those invariants, given a factory that matches the item schema
+//@ func newMessageMapField
+//@   requires typeis(schema.Schema, *j5schema.ObjectField) ==> typeis(factory, *objectFieldFactory)
+//@   requires typeis(schema.Schema, *j5schema.OneofField) ==> typeis(factory, *oneofFieldFactory)
+//@   ensures result1 == nil && typeis(result0, *mapOfObjectField) ==> as(*mapOfObjectField, result0) != nil && mapElemObj(as(*mapOfObjectField, result0).MutableMapField)
+//@   ensures result1 == nil && typeis(result0, *mapOfOneofField) ==> as(*mapOfOneofField, result0) != nil && mapElemOneof(as(*mapOfOneofField, result0).MutableMapField)
+//@ func newMessageArrayField
+//@   requires typeis(schema.Schema, *j5schema.ObjectField) ==> typeis(factory, *objectFieldFactory)
+//@   requires typeis(schema.Schema, *j5schema.OneofField) ==> typeis(factory, *oneofFieldFactory)
+//@   ensures result1 == nil && typeis(result0, *arrayOfObjectField) ==> as(*arrayOfObjectField, result0) != nil && typeis(as(*arrayOfObjectField, result0).factory, *objectFieldFactory)
+//@   ensures result1 == nil && typeis(result0, *arrayOfOneofField) ==> as(*arrayOfOneofField, result0) != nil && typeis(as(*arrayOfOneofField, result0).factory, *oneofFieldFactory)
+
+// a new element is what the container's factory builds; on error there is no element
+//@ func (MapField).NewElement
+//@   ensures result1 != nil ==> result0 == nil
+//@   ensures result1 == nil && mapElemObj(recv) ==> typeis(result0, *objectField)
+//@   ensures result1 == nil && mapElemOneof(recv) ==> typeis(result0, *oneofField)
+//@ func (*mutableMapField).NewElement
+//@   ensures result1 != nil ==> result0 == nil
+//@   ensures result1 == nil && typeis(mapField.factory, *objectFieldFactory) ==> typeis(result0, *objectField)
+//@   ensures result1 == nil && typeis(mapField.factory, *oneofFieldFactory) ==> typeis(result0, *oneofField)
+//@ func (*mutableArrayField).NewElement
+//@   ensures typeis(array.factory, *objectFieldFactory) ==> typeis(result, *objectField)
+//@   ensures typeis(array.factory, *oneofFieldFactory) ==> typeis(result, *oneofField)
+
+// Array and map item schemas are never themselves arrays or maps (protobuf cannot nest repeated
+// fields directly): a precondition of property building, carried up to the outermost function under
+// contract (an assumption about the schema sets j5schema produces).
+//@ spec func leafItems(p *j5schema.ObjectProperty) bool =
+//@   | (typeis(p.Schema, *j5schema.ArrayField) ==> !typeis(as(*j5schema.ArrayField, p.Schema).Schema, *j5schema.ArrayField) && !typeis(as(*j5schema.ArrayField, p.Schema).Schema, *j5schema.MapField))
+//@   | && (typeis(p.Schema, *j5schema.MapField) ==> !typeis(as(*j5schema.MapField, p.Schema).Schema, *j5schema.ArrayField) && !typeis(as(*j5schema.MapField, p.Schema).Schema, *j5schema.MapField))
+
+//@ func buildProperty
+//@   requires schema != nil && leafItems(schema)
+
+//@ func (*propSet).buildValue
+//@   requires prop.schema != nil && leafItems(prop.schema)
